@@ -4,6 +4,7 @@ import (
 	"fmt"
 	"math"
 	"math/bits"
+	"sort"
 	"strconv"
 	"strings"
 
@@ -13673,7 +13674,13 @@ func (l *Lowerer) tokenToUnaryOp(tok parser.TokenKind) ir.UnaryOperator {
 
 // checkUnusedVariables reports warnings for local variables that are declared but never used.
 func (l *Lowerer) checkUnusedVariables(funcName string) {
-	for name, span := range l.localDecls {
+	names := make([]string, 0, len(l.localDecls))
+	for name := range l.localDecls {
+		names = append(names, name)
+	}
+	sort.Strings(names)
+	for _, name := range names {
+		span := l.localDecls[name]
 		if !l.usedLocals[name] {
 			// Variables starting with _ are intentionally unused
 			if len(name) > 0 && name[0] == '_' {
